@@ -12,7 +12,7 @@ from ..core import Prop, Stream, cfg_prelude, run_workers_parallel, split_chunks
 # stream 1: attribution - generated call chains with a fault at every statement position
 # ------------------------------------------------------------------------------------------------
 A_SWITCHES = [("d_merge_same_name", "D182"), ("d_deco_rename", "D183"), ("d_chain_ctx", "D184"), ("d_node_start_line", "D185"),
-              ("d_with_swallow", "D186"), ("d_import_sticky", "D187")]
+              ("d_with_swallow", "D186"), ("d_import_sticky", "D187"), ("d_lambda_name", "D190")]
 
 ATOMS = ["1", "2", '"s"', "None", "True", "[1, 2]", "len([3])", "(4, 5)"]
 WRAP_FORMS = ["list", "tuple", "dict", "sub", "cmp", "or", "ifexp", "not", "str", "len", "kw", "listcomp", "listcompif",
@@ -108,6 +108,20 @@ def gen_fault_stmt(rng, k, allow_ret=True):
     return _nest_stmt(rng, s, rng.choice([0, 0, 0, 1, 2]), allow_swallow=False)
 
 
+def gen_native_fault(rng, k, kind):
+    """a raising statement for natively compiled code; a lambda can only hold an expression"""
+    if kind != "lambda" and rng.random() < 0.5:
+        exc = L.RAISE_KINDS[k % len(L.RAISE_KINDS)]
+        s = {"t": "raise", "exc": exc, "msg": "m", "cause": None}
+    else:
+        kinds = sorted(L.FAULT_EXPR)
+        e = _wrap_expr(rng, {"t": "f", "k": kinds[k % len(kinds)]}, rng.choice([0, 0, 1]))
+        s = {"t": "s", "form": "expr", "e": e} if kind == "lambda" else _simple_stmt(rng, e)
+    if kind != "lambda" and rng.random() < 0.2:
+        s = {"t": "blk", "form": rng.choice(["if", "for", "while"]), "e": _atom(rng), "body": [s]}
+    return s
+
+
 def fault_is_stopiter(stmt):
     if isinstance(stmt, dict):
         if stmt.get("t") == "raise" and stmt.get("exc") == "StopIteration":
@@ -165,7 +179,16 @@ def gen_skeleton(rng, entry):
             units.append({"file": cur, "kind": "func", "name": f"pvf_{i}", "body": []})
             links.append("call")
             acts += 1
+    if rng.random() < 0.22 and units[-1]["kind"] != "wrapper":
+        # a natively compiled leaf: @pyscript_compile / @pyscript_executor function or a file-level lambda
+        i = len(units)
+        nk = rng.choice(["compiled", "executor", "lambda"])
+        units.append({"file": cur, "kind": nk, "name": f"pvn_{i}", "body": []})
+        links.append("call")
     for i, u in enumerate(units):
+        if u["kind"] in L.NATIVE_KINDS:
+            u["body"] = [] if u["kind"] == "lambda" else [{"t": "pass", "v": rng.randint(0, 9)} for _ in range(rng.choice([0, 1, 2]))]
+            continue
         pre = [_filler(rng) for _ in range(rng.choice([0, 1, 1, 2]))]
         post = [_filler(rng) for _ in range(rng.choice([0, 0, 1, 2]))]
         body = list(pre)
@@ -198,8 +221,8 @@ class AttribStream(Stream):
 
     name = "attrib"
     rule = ("programs of 1-6 activations chained through plain functions, methods (incl. same-named ones), recursion, user "
-            "decorator wrappers, decorator application, functions of an imported module and import of a module whose body "
-            "runs the chain; calls embedded in 0-2 expression nodes (displays, comparisons, comprehensions, multi-line "
+            "decorator wrappers, decorator application, functions of an imported module, import of a module whose body "
+            "runs the chain, and natively compiled leaves (@pyscript_compile, @pyscript_executor, file-level lambda); calls embedded in 0-2 expression nodes (displays, comparisons, comprehensions, multi-line "
             "forms, multi-line method calls) and 0-2 statements (if/else/for/while/with/try with passing, chaining and "
             "swallowing handlers); for every program one case per statement position with an injected fault (every builtin "
             "exception kind in turn, user classes, raise..from, expression faults); entered at load time, as trigger "
@@ -227,7 +250,7 @@ class AttribStream(Stream):
                 vals.append(f"(negb (acase_spec_ok pv_w_{fid}))")
             else:
                 vals.append("false")
-        lines.append("Definition pv_cfg := mkACfg (mkDev " + " ".join(vals[:6]) + ") " + vals[6] + ".")
+        lines.append("Definition pv_cfg := mkACfg (mkDev " + " ".join(vals[:7]) + ") " + vals[7] + ".")
         return "\n".join(lines)
 
     def generate(self, ctx, budget, focus=None):
@@ -245,7 +268,10 @@ class AttribStream(Stream):
                     if len(cases) >= budget:
                         break
                     c = copy.deepcopy(base)
-                    c["fault"] = {"unit": i, "slot": j, "stmt": gen_fault_stmt(rng, k, allow_ret=units[i]["kind"] != "module")}
+                    if units[i]["kind"] in L.NATIVE_KINDS:
+                        c["fault"] = {"unit": i, "slot": j, "stmt": gen_native_fault(rng, k, units[i]["kind"])}
+                    else:
+                        c["fault"] = {"unit": i, "slot": j, "stmt": gen_fault_stmt(rng, k, allow_ret=units[i]["kind"] != "module")}
                     k += 1
                     cases.append(c)
             if rng.random() < 0.1 and len(cases) < budget:
@@ -406,8 +432,10 @@ class LoadStream(Stream):
     name = "load"
     rule = ("2-4 script files, each defining a @service and a trigger, then returning / raising (through a function call at module "
             "level) an exception of a builtin, user or BaseException kind / failing to parse, then defining another @service and "
-            "trigger; loaded at start-up and, in 70% of the cases, rewritten (good files break, broken ones are repaired) and loaded "
-            "again by pyscript.reload once or twice; both subsystems; observed per phase and file: hass.services.has_service and "
+            "trigger; loaded at start-up and then 0-3 times rewritten and reloaded: all files by pyscript.reload, or ONE file through "
+            "the targeted path (global_ctx: file.x) - loaded files break at parse time or at run time, broken ones are repaired; in "
+            "40% of the cases two files claim the same service name (the second registration is refused) and the refused function is "
+            "later released by reloading its file: the name must keep belonging to, and running, the first file; both subsystems; observed per phase and file: hass.services.has_service and "
             "Function.service_cnt for both services, whether calling them and firing the trigger event runs anything, error records "
             "on the file's logger, whether setup / reload raised into Home Assistant; non-trivial = at least one failing and one good "
             "file; distinct by the whole case")
@@ -429,34 +457,56 @@ class LoadStream(Stream):
     def generate(self, ctx, budget, focus=None):
         rng = ctx.rng
         cases = []
-        kinds = ["syntax"] + [k for k in L.RAISE_KINDS if k not in ("PvErr2",)]
-        k = rng.randrange(len(kinds))
+        kinds = [k for k in L.RAISE_KINDS if k not in ("PvErr2",)]
+        kk = rng.randrange(len(kinds))
 
-        def pick(p_ret):
-            nonlocal k
+        def bad(p_syntax=0.3):
+            nonlocal kk
             x = rng.random()
-            if x < p_ret:
-                return "ret"
-            if x < p_ret + 0.08:
+            if x < p_syntax:
+                return "syntax"
+            if x < p_syntax + 0.08:
                 return rng.choice(BASE_KINDS)
-            k += 1
-            return kinds[k % len(kinds)]
+            kk += 1
+            return kinds[kk % len(kinds)]
 
         while len(cases) < budget:
             n = rng.randint(2, 4)
             names = [f"f{chr(97 + i)}" for i in range(n)]
-            first = [[nm, pick(0.5)] for nm in names]
-            phases = [first]
-            if rng.random() < 0.7:
-                # reload with every file rewritten: good files break, broken ones are repaired, some stay
-                second = []
-                for nm, kd in first:
-                    x = rng.random()
-                    second.append([nm, ("ret" if kd != "ret" else pick(0.0)) if x < 0.6 else kd if x < 0.8 else pick(0.5)])
-                phases.append(second)
-                if rng.random() < 0.3:
-                    phases.append([[nm, pick(0.6)] for nm in names])
-            cases.append({"sub": "legacy" if len(cases) % 2 == 0 else "dm", "phases": phases})
+            shared = None
+            if rng.random() < 0.4:
+                # two files claim one service name; the owner (loaded first) stays good and is never reloaded on its own
+                shared = {"owner": names[0], "dup": rng.choice(names[1:])}
+            cur = {}
+            for nm in names:
+                cur[nm] = "ret" if (shared and nm == shared["owner"]) or rng.random() < 0.55 else bad(0.15)
+            if shared and rng.random() < 0.7:
+                cur[shared["dup"]] = "ret"
+            phases = [{"t": "all", "files": [[nm, cur[nm]] for nm in names], "dup": True}]
+            if shared and rng.random() < 0.75:
+                # release the refused function: its file is reloaded on its own without it (or fails after defining it again)
+                nm = shared["dup"]
+                cur[nm] = "ret" if rng.random() < 0.7 else bad(0.0)
+                phases.append({"t": "one", "name": nm, "kind": cur[nm], "dup": cur[nm] != "ret"})
+            for _ in range(rng.choice([0, 1, 1, 2, 3])):
+                if rng.random() < 0.6:
+                    # targeted reload of one file: a loaded file breaks (at parse time or at run time), a broken one is repaired
+                    cand = [nm for nm in names if not (shared and nm == shared["owner"])]
+                    nm = shared["dup"] if (shared and rng.random() < 0.6) else rng.choice(cand)
+                    new = bad(0.45) if (cur[nm] == "ret" and rng.random() < 0.65) else "ret"
+                    cur[nm] = new
+                    phases.append({"t": "one", "name": nm, "kind": new, "dup": rng.random() < 0.3})
+                else:
+                    for nm in names:
+                        if shared and nm == shared["owner"]:
+                            continue
+                        x = rng.random()
+                        if x < 0.5:
+                            cur[nm] = "ret" if cur[nm] != "ret" else bad(0.3)
+                        elif x < 0.7:
+                            cur[nm] = "ret"
+                    phases.append({"t": "all", "files": [[nm, cur[nm]] for nm in names], "dup": rng.random() < 0.5})
+            cases.append({"sub": "legacy" if len(cases) % 2 == 0 else "dm", "shared": shared, "phases": phases})
         return cases
 
     def run_impl(self, ctx, cases):
@@ -468,26 +518,35 @@ class LoadStream(Stream):
         phs = []
         ob = obs.get("phases", [])
         for i, ph in enumerate(case["phases"]):
-            files = q.lst(kind_class(kd) for _n, kd in ph)
+            fl = ph["files"] if ph["t"] == "all" else [[ph["name"], ph["kind"]]]
+            files = q.lst(kind_class(kd) for _n, kd in fl)
             if i >= len(ob):
                 if "error" in obs and i == 0:
-                    phs.append("(mkLPhase %s true [] [] [])" % files)
+                    phs.append("(mkLPhase %s true [] [] [] false)" % files)
                 break
             o = ob[i]
-            phs.append("(mkLPhase %s %s %s %s %s)" % (files, q.boolean(o["escaped"]), q.lst(q.boolean(b) for b in o["loaded"]),
-                                                     q.lst(q.boolean(b) for b in o["residue"]), q.lst(q.N(n) for n in o["logs"])))
+            phs.append("(mkLPhase %s %s %s %s %s %s)" % (files, q.boolean(o["escaped"]), q.lst(q.boolean(b) for b in o["loaded"]),
+                                                        q.lst(q.boolean(b) for b in o["residue"]), q.lst(q.N(n) for n in o["logs"]),
+                                                        q.boolean(o["others_ok"])))
         return "(mkLCase %s)" % q.lst(phs)
 
+    def _kinds(self, case):
+        out = []
+        for ph in case["phases"]:
+            out += [kd for _n, kd in ph["files"]] if ph["t"] == "all" else [ph["kind"]]
+        return out
+
     def nontrivial(self, case, obs):
-        ks = [kd for ph in case["phases"] for _n, kd in ph]
+        ks = self._kinds(case)
         return any(x == "ret" for x in ks) and any(x != "ret" for x in ks)
 
     def kind(self, case, obs):
-        ks = {("ret" if x == "ret" else "base" if x in BASE_KINDS else "syntax" if x == "syntax" else "exc") for ph in case["phases"] for _n, x in ph}
-        return f"{case['sub']}/{len(case['phases'][0])}files/{len(case['phases'])}phases/" + "+".join(sorted(ks))
+        ks = {("ret" if x == "ret" else "base" if x in BASE_KINDS else "syntax" if x == "syntax" else "exc") for x in self._kinds(case)}
+        modes = "".join("A" if ph["t"] == "all" else "1" for ph in case["phases"])
+        return f"{case['sub']}/{len(case['phases'][0]['files'])}files/{modes}/{'shared/' if case.get('shared') else ''}" + "+".join(sorted(ks))
 
     def describe(self, case, obs):
-        return {"sub": case["sub"], "phases": case["phases"], "observed": obs}
+        return {"sub": case["sub"], "shared": case.get("shared"), "phases": case["phases"], "observed": obs}
 
 
 # ------------------------------------------------------------------------------------------------
